@@ -128,4 +128,187 @@ Lemma frames27 : frames 27 (step27). Proof. unfold step27, replace_dot. frame_st
 Lemma frames28 : frames 28 (step28). Proof. unfold step28. frame_step. Qed.
 Lemma frames29 : frames 29 (step29 O). Proof. unfold step29. frame_step. Qed.
 
+(** The table: entry [i] stamps version [i+1]. *)
+Fixpoint framed_from (n : Z) (l : list step) : Prop :=
+  match l with
+  | [] => True
+  | s :: l' => frames n s /\ framed_from (n + 1) l'
+  end.
+
+Lemma steps_framed : framed_from 1 (map snd (steps O)).
+Proof.
+  cbn. pose proof frames1; pose proof frames2; pose proof frames3; pose proof frames4; pose proof frames5;
+  pose proof frames6; pose proof frames7; pose proof frames8; pose proof frames9; pose proof frames10;
+  pose proof frames11; pose proof frames12; pose proof frames13; pose proof frames14; pose proof frames15;
+  pose proof frames16; pose proof frames17; pose proof frames18; pose proof frames19; pose proof frames20;
+  pose proof frames21; pose proof frames22; pose proof frames23; pose proof frames24; pose proof frames25;
+  pose proof frames26; pose proof frames27; pose proof frames28; pose proof frames29.
+  intuition.
+Qed.
+
+Lemma framed_skipn c : forall n l, framed_from n l -> framed_from (n + Z.of_nat c) (skipn c l).
+Proof.
+  induction c as [|c IH]; intros n l H.
+  - cbn [skipn Z.of_nat]. now rewrite Z.add_0_r.
+  - destruct l as [|s l]; [exact I|]. destruct H as [_ H].
+    cbn [skipn]. replace (n + Z.of_nat (S c)) with (n + 1 + Z.of_nat c) by lia. now apply IH.
+Qed.
+
+Lemma framed_firstn c : forall n l, framed_from n l -> framed_from n (firstn c l).
+Proof.
+  induction c as [|c IH]; intros n l H; [exact I|].
+  destruct l as [|s l]; [exact I|]. destruct H as [H1 H2]. cbn [firstn]. split; auto.
+Qed.
+
+Lemma run_steps_frame l : forall n m m' k,
+  framed_from n l -> run_steps l m = Ok m' -> mem_b k written = false ->
+  get k m' = match l with
+             | [] => get k m
+             | _ => if String.eqb k "schema_version" then Some (VInt (n + Z.of_nat (List.length l) - 1)) else get k m
+             end.
+Proof.
+  induction l as [|s l IH]; intros n m m' k F H Hk.
+  - cbn in H. now injection H as <-.
+  - destruct F as [Fs Fl]. cbn [run_steps] in H.
+    destruct (s (Some m)) as [m1| |] eqn:E; cbn [bind] in H; try discriminate.
+    rewrite (IH _ _ _ _ Fl H Hk). pose proof (Fs _ _ _ E Hk) as G.
+    destruct l as [|s2 l].
+    + rewrite G. destruct (String.eqb k "schema_version") eqn:Ek.
+      * apply String.eqb_eq in Ek; subst k. rewrite get_upd_eq. cbn [List.length Z.of_nat]. do 2 f_equal. lia.
+      * apply String.eqb_neq in Ek. now apply get_upd_ne.
+    + destruct (String.eqb k "schema_version") eqn:Ek.
+      * do 2 f_equal. cbn [List.length]. lia.
+      * rewrite G. apply String.eqb_neq in Ek. now apply get_upd_ne.
+Qed.
+
+Lemma steps_length : List.length (map snd (steps O)) = 29%nat.
+Proof. reflexivity. Qed.
+
+Lemma upgrade_frame cur tgt m m' k :
+  upgrade O cur tgt m = Ok m' -> mem_b k written = false -> k <> "schema_version" ->
+  get k m' = get k m.
+Proof.
+  unfold upgrade. intros H Hk N.
+  rewrite (run_steps_frame _ (1 + Z.of_nat cur) _ _ _
+             (framed_firstn _ _ _ (framed_skipn cur _ _ steps_framed)) H Hk).
+  apply String.eqb_neq in N. rewrite N. now destruct (firstn _ _).
+Qed.
+
+Lemma upgrade_stamped cur tgt m m' :
+  (cur < tgt <= 29)%nat -> upgrade O cur tgt m = Ok m' ->
+  get "schema_version" m' = Some (VInt (Z.of_nat tgt)).
+Proof.
+  unfold upgrade. intros R H.
+  rewrite (run_steps_frame _ (1 + Z.of_nat cur) _ _ "schema_version"
+             (framed_firstn _ _ _ (framed_skipn cur _ _ steps_framed)) H eq_refl).
+  assert (L : List.length (firstn (tgt - cur) (skipn cur (map snd (steps O)))) = (tgt - cur)%nat).
+  { rewrite firstn_length, skipn_length, steps_length. lia. }
+  remember (firstn (tgt - cur) (skipn cur (map snd (steps O)))) as l eqn:E. destruct l.
+  - cbn in L. lia.
+  - rewrite L. rewrite String.eqb_refl. do 2 f_equal. lia.
+Qed.
+
+(** ** [Migrate] *)
+
+Definition input_map (top : option obj) : obj := match top with None => [] | Some m => m end.
+
+Lemma migrate_new_inv top target m' :
+  migrate O top target = ONew m' ->
+  exists cur, (cur < Z.to_nat target <= 29)%nat /\ 0 < target /\
+    upgrade O cur (Z.to_nat target) (input_map top) = Ok m'.
+Proof.
+  unfold migrate. fold (input_map top).
+  set (r := field_val TInt (input_map top) "schema_version").
+  assert (G : forall c, 0 <= c ->
+    (if c >? target then OErr else if target >? last_version then OErr else if c =? target then OSame
+     else match upgrade O (Z.to_nat c) (Z.to_nat target) (input_map top) with
+          | Ok m' => ONew m' | Err => OErr | Panic => OPanic end) = ONew m' ->
+    exists cur, (cur < Z.to_nat target <= 29)%nat /\ 0 < target /\
+      upgrade O cur (Z.to_nat target) (input_map top) = Ok m').
+  { intros c Hc. unfold last_version.
+    destruct (c >? target) eqn:E1; [discriminate|].
+    destruct (target >? 29) eqn:E2; [discriminate|].
+    destruct (c =? target) eqn:E3; [discriminate|].
+    destruct (upgrade O _ _ _) eqn:E4; try discriminate. intros [= ->].
+    exists (Z.to_nat c). repeat split; try lia; auto. }
+  destruct r; try discriminate; apply G; apply Z.mod_pos_bound; lia.
+Qed.
+
+Lemma migrate_stamped top target m' :
+  migrate O top target = ONew m' -> get "schema_version" m' = Some (VInt target).
+Proof.
+  intros H. destruct (migrate_new_inv _ _ _ H) as (cur & R & P & U).
+  rewrite (upgrade_stamped _ _ _ _ R U). do 2 f_equal. lia.
+Qed.
+
+Lemma migrate_frame top target m' k :
+  migrate O top target = ONew m' -> mem_b k written = false -> k <> "schema_version" ->
+  get k m' = get k (input_map top).
+Proof.
+  intros H. destruct (migrate_new_inv _ _ _ H) as (cur & R & P & U). now apply upgrade_frame with (1 := U).
+Qed.
+
+(** A document already at the target version is returned as it is. *)
+Lemma migrate_at_target m target :
+  get "schema_version" m = Some (VInt target) -> 0 <= target <= last_version ->
+  migrate O (Some m) target = OSame.
+Proof.
+  unfold migrate, field_val, last_version. intros -> R. cbn [has_ty fv_val zint].
+  rewrite Z.mod_small by lia.
+  destruct (target >? target) eqn:E1; [lia|].
+  destruct (target >? 29) eqn:E2; [lia|]. now rewrite Z.eqb_refl.
+Qed.
+
+Lemma get_norm_obj k m : get k (norm_obj m) = option_map norm (get k m).
+Proof.
+  induction m as [|[k' v] m IH]; cbn; [reflexivity|]. destruct (String.eqb k k'); auto.
+Qed.
+
+(** Upgrading the re-read result again changes nothing. *)
+Lemma migrate_idempotent top target m' :
+  migrate O top target = ONew m' -> migrate O (Some (norm_obj m')) target = OSame.
+Proof.
+  intros H. pose proof (migrate_stamped _ _ _ H) as S.
+  destruct (migrate_new_inv _ _ _ H) as (cur & R & P & _).
+  apply migrate_at_target.
+  - rewrite get_norm_obj, S. reflexivity.
+  - unfold last_version. lia.
+Qed.
+
+(** What [Migrate] hands back: [None] stands for the unchanged input body. *)
+Definition returned_body (o : outcome) : option obj := match o with ONew m => Some m | _ => None end.
+Definition is_upgraded (o : outcome) : bool := match o with ONew _ => true | _ => false end.
+
+Lemma migrate_error_keeps_input top target :
+  migrate O top target = OErr ->
+  returned_body (migrate O top target) = None /\ is_upgraded (migrate O top target) = false.
+Proof. intros ->. split; reflexivity. Qed.
+
 End WithOracles.
+
+(** ** Concrete instances (premises are satisfiable) *)
+
+Definition oracles0 : oracles :=
+  {| o_bcrypt := fun s => Some ("hash:" ++ s)%string; o_quic := fun s => s;
+     o_addr := fun s => if String.eqb s "127.0.0.1" then Some s else None; o_glob := "/data/userfilters/*" |}.
+
+Definition doc22 : obj :=
+  [("schema_version", VInt 22); ("bind_host", VStr "127.0.0.1"); ("bind_port", VInt 3000);
+   ("web_session_ttl", VInt 720); ("verbose", VBool true); ("theme", VStr "auto");
+   ("dns", VObj [("all_servers", VBool true); ("filtering_enabled", VBool true)]);
+   ("filters", VArr [VObj [("url", VStr "/etc/list.txt")]; VObj [("url", VStr "https://a.example/l.txt")]])].
+
+Example doc22_upgrades :
+  exists m', migrate oracles0 (Some doc22) 29 = ONew m' /\
+    get "schema_version" m' = Some (VInt 29) /\ get "theme" m' = Some (VStr "auto") /\
+    get "http" m' = Some (VObj [("address", VStr "127.0.0.1:3000"); ("session_ttl", VStr "720h");
+                                ("pprof", VObj [("enabled", VBool false); ("port", VInt 6060)])]) /\
+    get "filtering" m' = Some (VObj [("filtering_enabled", VBool true);
+                                     ("safe_fs_patterns", VStrs ["/data/userfilters/*"; "/etc/list.txt"])]).
+Proof. eexists. split; [vm_compute; reflexivity|]. repeat split. Qed.
+
+Example doc_error : migrate oracles0 (Some [("schema_version", VInt 10); ("rlimit_nofile", VStr "x")]) 29 = OErr.
+Proof. reflexivity. Qed.
+
+Example doc_null_document : exists m', migrate oracles0 None 29 = ONew m' /\ get "schema_version" m' = Some (VInt 29).
+Proof. eexists. split; [vm_compute; reflexivity|]. reflexivity. Qed.
